@@ -1,43 +1,84 @@
 (** C05 -- Retractions are never doubled and are recovered before printing resumes.
-    PARTIAL: the state-machine facts below are proved for all states; the quantitative depth statement
-    (depth U <= depth F <= deepest requested, equality at every forwarded printing move) over whole programs with
-    matched equal-length cycles is decided on the implementation by the reference-printer oracle of this check
-    and on the model by the correspondence; its Coq proof over the full model is not finished (DESIGN.md, C05). *)
-From Coq Require Import String List Bool.
-From ER Require Import Base.Num Model.Geometry Model.Axis Model.Filter Proofs.FilterLemmas Proofs.Outputs Proofs.Retract.
+    Proved over whole histories (commands, region additions, @-commands; any region set; mm or inches; relative or
+    absolute positioning) in the E-only dialect with matched retract / recover cycles of one length L:
+      depth(printer) = depth(file) + (L if a recovery is owed, else 0),
+    hence  depth(file) <= depth(printer) <= L  (never shallower than the file assumes, never deeper than the deepest
+    retraction the file requested), and a forwarded printing move that extrudes starts with the printer exactly as deep
+    as the file (0): the commands in front of it have recovered what was owed.  The state-machine facts (owed, once,
+    never doubled, firmware parameters carried) are proved for every state and every number instance.
+    PARTIAL: the firmware dialect (G10/G11 parity over whole programs) has the state-machine facts only; its
+    whole-program statement is decided by the reference-printer oracle and the correspondence. *)
+From Coq Require Import Reals String List Bool.
+From ER Require Import Base.Num Model.Geometry Model.Axis Model.Filter Proofs.FilterLemmas Proofs.Outputs Proofs.Retract Spec.Printer Proofs.Track Proofs.FSync Proofs.Sync Proofs.Depth.
 Import ListNotations.
 
-Theorem C05_partial_recovery_inside_is_owed : forall (T : Type) (N : Num T) (s : fstate T) cmd lr,
+(** the depth invariant over every well-formed history *)
+Theorem C05_depth_invariant : forall c L rs (h : list hev), (0 < L)%R ->
+  let x0 := mkSim (init_state rs) init_printer init_printer in
+  wf_hist c x0 h -> dwf_hist L c x0 h ->
+  let x := hrun c x0 h in
+  (qdep (sm_U x) <= qdep (sm_F x) <= L)%R /\ (qdep (sm_U x) = 0 \/ qdep (sm_U x) = L)%R /\
+  qdep (sm_F x) = (qdep (sm_U x) + match lastRetraction (sm_s x) with Some lr => if recoverExcluded lr then L else 0 | None => 0 end)%R.
+Proof.
+  intros c L rs h HL x0 W DW x. destruct (depth_run c L h HL x0 (sync_init rs) (dep_init L rs) W DW) as (_ & D).
+  exact (dep_reading L _ _ _ HL D).
+Qed.
+
+(** a forwarded printing move that extrudes: the commands emitted in front of it bring the printer to the file's depth *)
+Theorem C05_print_move_level : forall c L (s : fstate R) (F U : printer R) (m : icmd R),
+  (0 < L)%R -> Track s U -> FSync s F U -> Dep L s F U -> wf_cmd c U m -> dwf L U m ->
+  linear m = true -> moving m = true -> (0 < dE U (cwords m))%R ->
+  excluding s = false -> excluding (fst (handle c s m)) = false ->
+  exists pre, outs m (snd (handle c s m)) = (pre ++ [Orig (ctext m)])%list /\ qdep (run_outs (g90e c) m F pre) = 0%R /\ qdep U = 0%R.
+Proof. exact handle_print_level. Qed.
+
+(** the invariant is kept by every single step (this is what a changed handler has to re-establish) *)
+Theorem C05_depth_step : forall c L (x : sim) (ev : hev), (0 < L)%R -> Sync x -> DepX L x ->
+  match ev with HCmd m => wf_cmd c (sm_U x) m /\ no_home_inside (sm_s x) m | _ => True end ->
+  match ev with HCmd m => dwf L (sm_U x) m | _ => True end -> DepX L (hstep c x ev).
+Proof. exact dep_step. Qed.
+
+(** non-vacuity: print, retract 4, travel, recover 4, print -- meets the premises for any region set *)
+Theorem C05_premises_satisfiable : forall rs : list (region R),
+  let x0 := mkSim (init_state rs) init_printer init_printer in
+  wf_hist ex_cfg x0 ex_hist /\ dwf_hist 4 ex_cfg x0 ex_hist.
+Proof. exact depth_premises_satisfiable. Qed.
+
+Theorem C05_recovery_inside_is_owed : forall (T : Type) (N : Num T) (s : fstate T) cmd lr,
   excluding s = true -> lastRetraction s = Some lr ->
   snd (recoverRetractionIfNeeded s cmd true) = [] /\
   exists lr', lastRetraction (fst (recoverRetractionIfNeeded s cmd true)) = Some lr' /\ recoverExcluded lr' = true /\
               amount lr' = amount lr /\ fw lr' = fw lr /\ rorig lr' = rorig lr.
 Proof. exact @recovery_inside_is_owed. Qed.
 
-Theorem C05_partial_owed_recovery_once : forall (T : Type) (N : Num T) (s : fstate T) cmd b lr,
+Theorem C05_owed_recovery_once : forall (T : Type) (N : Num T) (s : fstate T) cmd b lr,
   excluding s = false -> lastRetraction s = Some lr -> recoverExcluded lr = true ->
   snd (recoverRetractionIfNeeded s cmd b) = retr_cmds (mkRetr true false (fw lr) (amount lr) (rfeed lr) (rorig lr)) true (position s) ++ [Orig cmd] /\
   lastRetraction (fst (recoverRetractionIfNeeded s cmd b)) = None.
 Proof. exact @owed_recovery_emitted_once. Qed.
 
-Theorem C05_partial_no_double_retraction : forall (T : Type) (N : Num T) (s : fstate T) rt lr,
+Theorem C05_no_double_retraction : forall (T : Type) (N : Num T) (s : fstate T) rt lr,
   excluding s = true -> lastRetraction s = Some lr ->
   (recoverExcluded lr = true \/ allowCombine lr = false) -> snd (recordRetraction s rt) = [].
 Proof. exact @no_double_retraction. Qed.
 
-Theorem C05_partial_dropped_retraction : forall (T : Type) (N : Num T) (s : fstate T) rt lr,
+Theorem C05_dropped_retraction : forall (T : Type) (N : Num T) (s : fstate T) rt lr,
   lastRetraction s = Some lr -> recoverExcluded lr = true ->
   snd (recordRetraction s rt) = [] /\
   exists lr', lastRetraction (fst (recordRetraction s rt)) = Some lr' /\ recoverExcluded lr' = false /\ amount lr' = amount lr.
 Proof. exact @dropped_retraction_clears_debt. Qed.
 
-Theorem C05_partial_first_retraction_inside : forall (T : Type) (N : Num T) (s : fstate T) rt,
+Theorem C05_first_retraction_inside : forall (T : Type) (N : Num T) (s : fstate T) rt,
   excluding s = true -> lastRetraction s = None ->
   snd (recordRetraction s rt) = retr_cmds rt false (position s) /\ lastRetraction (fst (recordRetraction s rt)) = Some rt.
 Proof. exact @first_retraction_inside_executed. Qed.
 
-Print Assumptions C05_partial_recovery_inside_is_owed.
-Print Assumptions C05_partial_owed_recovery_once.
-Print Assumptions C05_partial_no_double_retraction.
-Print Assumptions C05_partial_dropped_retraction.
-Print Assumptions C05_partial_first_retraction_inside.
+Print Assumptions C05_depth_invariant.
+Print Assumptions C05_print_move_level.
+Print Assumptions C05_depth_step.
+Print Assumptions C05_premises_satisfiable.
+Print Assumptions C05_recovery_inside_is_owed.
+Print Assumptions C05_owed_recovery_once.
+Print Assumptions C05_no_double_retraction.
+Print Assumptions C05_dropped_retraction.
+Print Assumptions C05_first_retraction_inside.
